@@ -466,6 +466,16 @@ Proof.
   intros n Hn. apply ResolveSem.float_line_numbers. lia.
 Qed.
 
+Theorem resolve_behaviour_with_calls_converse_float (O : @oracle float) (q : list (@line float)) :
+  length q <= 4096 -> frag q = true -> forall fuel', exists fuel,
+  let a := run FloatAlg O q fuel (init_state FloatAlg) in
+  let b := run FloatAlg O (resolve FloatAlg q) fuel' (init_state FloatAlg) in
+  hist b = hist a /\ st b = st a /\ mem b = mem a /\ regs b = map_regs FloatAlg q (regs a) /\ pc b = instrs_before q (pc a).
+Proof.
+  intros Hlen F fuel'. apply resolve_behaviour_with_calls_converse; [|exact F].
+  intros n Hn. apply ResolveSem.float_line_numbers. lia.
+Qed.
+
 (* a main loop calling a leaf subroutine twice *)
 Example frag_calls_example :
   let q : list (@line float) :=
